@@ -1,7 +1,7 @@
 (* C16 -- Only fully wired workflows run; RunTo executes exactly the upstream closure. *)
 From Coq Require Import List Arith Lia Bool String.
 Import ListNotations.
-From SP Require Import Skel Gen Expected Wiring Wiring2 Ready.
+From SP Require Import Skel Gen Expected ExpectedCones Wiring Wiring2 Ready.
 
 (* T1: the wiring code *)
 Theorem C16_code_conforms :
@@ -87,6 +87,24 @@ Definition ex_preds (v : nat) : list nat := match v with 1 => [0] | 2 => [0] | 3
 Theorem C16_example : run_set ex_preds 5 [1] = [1; 0] /\ run_set ex_preds 5 [3] = [3; 1; 0; 2; 0].
 Proof. split; reflexivity. Qed.
 
+(* T1, call cones: every function of scipipe that the functions above can reach (calls and function values, interface calls
+   resolved to every implementation) is one the models were compared with -- a helper that is new to the cone, or a new call
+   of an old one, changes a list (the lists are regenerated from /repo on every run; ExpectedCones.v holds the accepted ones) *)
+Theorem C16_cone_conforms :
+  strs_eqb cone_Workflow_runProcs exp_cone_Workflow_runProcs
+  && strs_eqb cone_Workflow_readyToRun exp_cone_Workflow_readyToRun
+  && strs_eqb cone_Workflow_reconnectDeadEndConnections exp_cone_Workflow_reconnectDeadEndConnections
+  && strs_eqb cone_Workflow_RunToProcs exp_cone_Workflow_RunToProcs
+  && strs_eqb cone_Workflow_Run exp_cone_Workflow_Run
+  && strs_eqb cone_upstreamProcsForProc exp_cone_upstreamProcsForProc
+  && strs_eqb cone_collectUpstreamProcs exp_cone_collectUpstreamProcs
+  && strs_eqb cone_BaseProcess_Ready exp_cone_BaseProcess_Ready
+  && strs_eqb cone_InPort_From exp_cone_InPort_From
+  && strs_eqb cone_OutPort_To exp_cone_OutPort_To
+  && strs_eqb cone_OutPort_Disconnect exp_cone_OutPort_Disconnect
+  && strs_eqb cone_InPort_Disconnect exp_cone_InPort_Disconnect = true.
+Proof. vm_compute. reflexivity. Qed.
+
 Print Assumptions C16_code_conforms.
 Print Assumptions C16_refuses_before_start.
 Print Assumptions C16_ready_flag.
@@ -100,3 +118,4 @@ Print Assumptions C16_started_are_checked.
 Print Assumptions C16_unready_refused.
 Print Assumptions C16_ready_runs.
 Print Assumptions C16_driver_unchecked_refuted_before_repair.
+Print Assumptions C16_cone_conforms.
